@@ -560,6 +560,13 @@ fn lit_j(l: &rustc_ast::LitKind) -> J {
             o.put("t", J::s("char"));
             o.put("v", J::s(c.to_string()));
         }
+        ByteStr(bytes, _) => {
+            o.put("t", J::s("bytestr"));
+            o.put(
+                "v",
+                J::Arr(bytes.as_byte_str().iter().map(|b| J::Int(*b as i128)).collect()),
+            );
+        }
         other => {
             o.put("t", J::s("other"));
             o.put("v", J::s(format!("{:?}", other)));
